@@ -18,7 +18,7 @@
 (***************************************************************************)
 EXTENDS Naturals, Integers, Sequences, FiniteSets, SequencesExt, TLC
 
-CONSTANTS Num10, Num16, NumC, DecStr, HexStr, StrRank
+CONSTANTS Num10, Num16, NumC, DecStr, HexStr, StrRank, NumF, NormF, FCanon
 
 INSTANCE KEval
 
@@ -73,12 +73,13 @@ ValidFor(type, v) ==
     [] type = "int"    -> v \in DOMAIN Num10
     [] type = "hex"    -> v \in DOMAIN Num16 /\ Num16[v] >= 0
     [] type = "string" -> TRUE
+    [] type = "float"  -> v \in DOMAIN NumF
     [] OTHER -> FALSE
 
 \* Symbol.set_value: [U, P]; an invalid value changes nothing
 SetSym(X, U, P, n, v) ==
   IF ~ValidFor(X.s[n].type, v) THEN [U |-> U, P |-> P, ok |-> FALSE]
-  ELSE [U |-> [U EXCEPT ![n] = v],
+  ELSE [U |-> [U EXCEPT ![n] = Norm(X.s[n].type, v)],
         P |-> IF X.s[n].ch # "" /\ v = "y" THEN [P EXCEPT ![X.s[n].ch] = n] ELSE P,
         ok |-> TRUE]
 
@@ -110,7 +111,7 @@ LoadStep(X, R, acc, ln0) ==
   ELSE IF ~ValidFor(X.s[ln.n].type, ln.v) THEN acc
   ELSE IF ln.d THEN acc                       \* a default-marked entry is not a user value
   ELSE IF X.s[ln.n].ch # "" THEN [acc EXCEPT !.chq = Append(@, <<ln.n, ln.v>>)]
-  ELSE [acc EXCEPT !.U = [@ EXCEPT ![ln.n] = ln.v], !.set = @ \cup {ln.n}]
+  ELSE [acc EXCEPT !.U = [@ EXCEPT ![ln.n] = Norm(X.s[ln.n].type, ln.v)], !.set = @ \cup {ln.n}]
 
 MemberStep(X, acc, mv) ==
   LET m == mv[1]
@@ -131,4 +132,21 @@ Load(X, R, F, replace, U, P) ==
        ELSE [U |-> a2.U, P |-> a2.P, missing |-> a2.missing]
 
 NoUser(X) == [U |-> [n \in DOMAIN X.s |-> NoVal], P |-> [c \in DOMAIN X.c |-> NoVal]]
+
+----------------------------------------------------------------------------
+(* One step of a session.  st = [U, P]; act is a record:                   *)
+(*   [a |-> "set", n, v]  [a |-> "unset", n]  [a |-> "reset", n]           *)
+(*   [a |-> "resetch", c] [a |-> "unsetch", c]                             *)
+(*   [a |-> "load", f, replace]   (f indexes Files)                        *)
+(*   [a |-> "read", n] [a |-> "readall"]   (no effect on U, P)             *)
+ApplyAct(X, R, Files, st, act) ==
+  CASE act.a = "set"     -> LET r == SetSym(X, st.U, st.P, act.n, act.v) IN [U |-> r.U, P |-> r.P]
+    [] act.a = "unset"   -> UnsetSym(st.U, st.P, act.n)
+    [] act.a = "reset"   -> ResetSym(X, st.U, st.P, act.n)
+    [] act.a = "resetch" -> ResetChoice(X, st.U, st.P, act.c)
+    [] act.a = "unsetch" -> [U |-> st.U, P |-> [st.P EXCEPT ![act.c] = NoVal]]
+    [] act.a = "load"    -> LET r == Load(X, R, Files[act.f], act.replace, st.U, st.P) IN [U |-> r.U, P |-> r.P]
+    [] OTHER             -> st
+
+IsChange(act) == act.a \notin {"read", "readall"}
 =============================================================================
